@@ -1,10 +1,10 @@
-pub const MAX_ALLOWED_HSS_LEVELS: usize = 2;
+pub const MAX_ALLOWED_HSS_LEVELS: usize = 6;
 
-pub const MAX_TREE_HEIGHT: usize = 10;
+pub const MAX_TREE_HEIGHT: usize = 25;
 
-pub const TREE_HEIGHTS: [usize; 2] = [10, 5];
+pub const TREE_HEIGHTS: [usize; 6] = [10, 25, 10, 15, 10, 25];
 
 pub const MIN_WINTERNITZ_PARAMETER: usize = 2;
 
-pub const WINTERNITZ_PARAMETERS: [usize; 2] = [2, 4];
+pub const WINTERNITZ_PARAMETERS: [usize; 6] = [8, 4, 8, 2, 8, 8];
 
